@@ -654,6 +654,22 @@ def openOrWrite (P : PemCodec) (gen : Option Bytes) (writeOk : Bool) (fs : FsSta
     | .err => .ok (⟨none, true⟩, fs)
     | .panic => .panic
 
+/-- The part of `OpenOrWritePrivKey` that runs after `os.Stat` has reported "does not exist":
+generate `k`, marshal it, `os.WriteFile` (O_CREATE|O_TRUNC — it REPLACES whatever is at the path by
+then). `fs` is the state of the path at the moment of the write. -/
+def writeAfterMissing (P : PemCodec) (k : Bytes) (fs : FsState) : KeyErr × FsState :=
+  match fs with
+  | .missing => (⟨some k, false⟩, .file (marshalPrivKeyPem P k))
+  | .file _ => (⟨some k, false⟩, .file (marshalPrivKeyPem P k))
+  | _ => (⟨some k, true⟩, fs)
+
+/-- Concurrent first start: every caller has already seen "does not exist" for the same missing
+path (stat and write are two system calls); the callers, with generated keys `ks`, then write in list
+order. Result: what each caller returns, and the path afterwards. -/
+def concurrentFirstStart (P : PemCodec) (ks : List Bytes) : List KeyErr × FsState :=
+  ks.foldl (fun (acc : List KeyErr × FsState) k =>
+    ((acc.1 ++ [(writeAfterMissing P k acc.2).1]), (writeAfterMissing P k acc.2).2)) ([], .missing)
+
 /-- The function as it was before the fix (known defect F20), kept to state what was wrong. -/
 def openOrWritePreFix (P : PemCodec) (gen : Option Bytes) (writeOk : Bool) (fs : FsState) : Res (KeyErr × FsState) :=
   match fs with
